@@ -100,6 +100,30 @@ func (e *Engine) initSummaries(fs []*ssa.Function) {
 				addT := func(desc string, mk func(e callEnv) Lin) {
 					sum.truePost = append(sum.truePost, &sumCand{desc: fmt.Sprintf("r%d true => %s", bk, desc), res: bk, mk: mk, ok: true})
 				}
+				// relations among the parameters that a true verdict establishes (bounded advance: pos + n <= len)
+				for si, sp := range f.Params {
+					si := si
+					if !isSliceOrStr(sp.Type()) {
+						continue
+					}
+					var ints []int
+					for ii, ip := range f.Params {
+						if ok, uns := intWidthOK(ip.Type()); ok && !uns {
+							ints = append(ints, ii)
+						}
+					}
+					for _, a := range ints {
+						a := a
+						addT(fmt.Sprintf("p%d<=len(p%d)", a, si), func(e callEnv) Lin { return le(e.arg(a), e.argLen(si)) })
+						addT(fmt.Sprintf("p%d>=0", a), func(e callEnv) Lin { return le(konst(0), e.arg(a)) })
+						for _, b := range ints {
+							b := b
+							if b > a {
+								addT(fmt.Sprintf("p%d+p%d<=len(p%d)", a, b, si), func(e callEnv) Lin { return le(e.arg(a).add(e.arg(b), 1), e.argLen(si)) })
+							}
+						}
+					}
+				}
 				// other int results against the slice parameters
 				for ri := 0; ri < res.Len(); ri++ {
 					ri := ri
@@ -110,6 +134,7 @@ func (e *Engine) initSummaries(fs []*ssa.Function) {
 						pi := pi
 						if isSliceOrStr(p.Type()) {
 							addT(fmt.Sprintf("r%d<len(p%d)", ri, pi), func(e callEnv) Lin { return lt(e.ret(ri), e.argLen(pi)) })
+							addT(fmt.Sprintf("r%d<=len(p%d)", ri, pi), func(e callEnv) Lin { return le(e.ret(ri), e.argLen(pi)) })
 						}
 					}
 				}
@@ -180,7 +205,13 @@ func (e *Engine) initSummaries(fs []*ssa.Function) {
 					}
 				}
 				if isSliceOrStr(p.Type()) {
-					for _, k := range []int64{1, 2, 3, 4} {
+					ks := map[int64]bool{1: true, 2: true, 3: true, 4: true}
+					for c := range consts {
+						if c < 1<<16 {
+							ks[c], ks[c+1] = true, true
+						}
+					}
+					for k := range ks {
 						k := k
 						addP(fmt.Sprintf("len(p%d)>=%d", pi, k), func(e callEnv) Lin { return le(konst(k), e.argLen(pi)) })
 					}
@@ -631,6 +662,11 @@ func Run(prog *ssa.Program, inMod func(*ssa.Function) bool) *Result {
 		for pi, ok := range e.sums[f].cellShrink {
 			if ok {
 				keep = append(keep, fmt.Sprintf("cellShrink(p%d)", pi))
+			}
+		}
+		for _, c := range e.sums[f].pre {
+			if c.ok {
+				keep = append(keep, c.desc)
 			}
 		}
 		sort.Strings(keep)
